@@ -85,6 +85,7 @@ class Runner:
         self.log = []
         self.stats = {}
         self.tol = TOL  # becomes TOL_TRUNC once a displacement / squeezing truncated the space
+        self.route_mismatches = []
 
     # ---- spec helpers -------------------------------------------------------------------
     def spec_get(self):
@@ -203,6 +204,198 @@ class Runner:
             elif a["level"] != b["level"] or a["data"] != b["data"] or a["dims"] != b["dims"] or a["kind"] != b["kind"]:
                 self.findings.append(Finding(prop, f"bystander block {b['members']} ({b['kind']}) was modified (level {b['level']}->{a['level']}, kind {b['kind']}->{a['kind']}, dims {b['dims']}->{a['dims']}, data changed: {a['data'] != b['data']})", i))
 
+    # ---- routing correspondence (partition model PW.Routing) ---------------------------------
+    def containers(self):
+        """distinct containers of the world's handles, numbered in order of first appearance"""
+        out = []
+        for h in self.w.handles:
+            c = CompositeEnvelope._containers.get(h.uid)
+            if c is not None and not any(c is x for x in out):
+                out.append(c)
+        return out
+
+    def cont_index(self, handle_index):
+        c = CompositeEnvelope._containers.get(self.w.handles[handle_index].uid)
+        return ix(self.containers(), c)
+
+    def layout_now(self):
+        w = self.w
+        out = []
+        for ci, cont in enumerate(self.containers()):
+            for ps in cont.states:
+                out.append({"k": "ps", "c": ci, "m": [w.sid(x) for x in ps.state_objs]})
+        for e in w.envs:
+            if e.state is not None and not e.measured:
+                order = [None, None]
+                order[e.fock.index] = w.sid(e.fock)
+                order[e.polarization.index] = w.sid(e.polarization)
+                out.append({"k": "env", "m": order})
+        for s in w.live():
+            if s.index is None:
+                out.append({"k": "own", "m": [w.sid(s)]})
+        return out
+
+    def subs_info(self):
+        w = self.w
+        out = []
+        for s in w.subs:
+            p = None
+            if not isinstance(s, CustomState) and s.envelope is not None:
+                o = s.envelope.polarization if s is s.envelope.fock else s.envelope.fock
+                p = w.sid(o)
+            out.append({"id": w.sid(s), "fock": isinstance(s, Fock), "custom": isinstance(s, CustomState), "partner": p})
+        return out
+
+    @staticmethod
+    def canon_layout(lay):
+        ps = {}
+        for b in lay:
+            if b["k"] == "ps":
+                ps.setdefault(b["c"], []).append(tuple(b["m"]))
+        return (sorted((c, tuple(v)) for c, v in ps.items() if v),
+                sorted(tuple(b["m"]) for b in lay if b["k"] == "env"),
+                sorted(tuple(b["m"]) for b in lay if b["k"] == "own"))
+
+    def route_predict(self, lay, calls):
+        for call in calls:
+            lay = self.lean.call(op="route", layout=lay, subs=self._subs_info, call=call)["layout"]
+        return lay
+
+    def route_check(self, i, st, lay_before, calls):
+        """compare the partition predicted by the routing model with the one found afterwards"""
+        if calls is None:
+            return
+        try:
+            pred = self.route_predict(lay_before, calls)
+        except LeanError as ex:
+            self.route_mismatches.append({"step": i, "error": str(ex)})
+            return
+        now = self.layout_now()
+        self.stats["route_checked"] = self.stats.get("route_checked", 0) + 1
+        if self.canon_layout(pred) != self.canon_layout(now):
+            self.route_mismatches.append({"step": i, "kind": st["kind"], "what": st.get("what", st.get("gate")), "entry": st.get("entry"),
+                                          "before": lay_before, "calls": calls, "model": self.canon_layout(pred), "impl": self.canon_layout(now)})
+
+    def route_calls_for(self, st, lay_before):
+        """the sequence of routing-model calls that mirrors a step (None: not modelled)"""
+        w = self.w
+        kind = st["kind"]
+        T = st.get("targets", [])
+        en = st.get("entry", "state")
+        c = self.cont_index(st["h"]) if "h" in st and w.handles else 0
+
+        def kind_of(t):
+            for b in lay_before:
+                if t in b["m"]:
+                    return b
+            return None
+
+        def cont_of(t):
+            b = kind_of(t)
+            if b is not None and b["k"] == "ps":
+                return b["c"]
+            # the container that lists the subsystem
+            for ci, cont in enumerate(self.containers()):
+                if has(cont.state_objs, w.subs[t]):
+                    return ci
+            return 0
+
+        if kind == "op":
+            g = st["gate"]
+            # subsystems that the implementation moves to the front of their product space on the way:
+            # every operand whose reduced state is read (trace_out -> reorder) and every Fock that is resized
+            if g in COMP_GATES:
+                focks = list(T) + ([t for t in T if isinstance(w.subs[t], Fock)] if g == "BS" else [])
+            elif g in FOCK_GATES or g == "FockCustom":
+                focks = [T[0], T[0]]
+            elif g == "CustomCustom":
+                focks = [T[0]]
+            else:
+                focks = []
+            cc = c if en == "ce" else cont_of(T[0])
+            return [{"what": "op", "c": cc, "T": T, "focks": focks}]
+        if kind == "kraus":
+            cc = c if en == "ce" else cont_of(T[0])
+            return [{"what": "kraus", "c": cc, "entry": en, "T": T}]
+        if kind == "trace_out":
+            cc = c if en == "ce" else cont_of(T[0])
+            return [{"what": "trace_out", "c": cc, "entry": en, "T": T}]
+        if kind == "resize":
+            return [{"what": "resize", "T": T}]
+        if kind == "measure":
+            sep, des = bool(st.get("sep", False)), bool(st.get("destructive", True))
+            M = list(T)
+            if not sep:
+                for t in T:
+                    s = w.subs[t]
+                    if not isinstance(s, CustomState):
+                        for x in (w.sid(s.envelope.fock), w.sid(s.envelope.polarization)):
+                            if x not in M:
+                                M.append(x)
+            surv = [t for t in M if (not des) or isinstance(w.subs[t], CustomState)]
+            return [{"what": "measure", "M": M, "survivors": surv}]
+        if kind == "povm":
+            des = bool(st.get("destructive", True))
+            t0 = w.subs[T[0]]
+
+            def partner(t):
+                s = w.subs[t]
+                if isinstance(s, CustomState):
+                    return None
+                return w.sid(s.envelope.polarization if s is s.envelope.fock else s.envelope.fock)
+
+            def ce_path(cc):
+                calls = [{"what": "povm", "c": cc, "T": T}]
+                D = [t for t in T if not isinstance(w.subs[t], CustomState)]
+                if des and D:
+                    M = list(D)
+                    for t in D:
+                        p = partner(t)
+                        if p is not None and p not in M and not getattr(w.subs[p], "measured", False):
+                            M.append(p)
+                    calls.append({"what": "measure", "M": M, "survivors": []})
+                return calls
+
+            b0 = kind_of(T[0])
+            in_comp = (not isinstance(t0, CustomState)) and t0.envelope.composite_envelope_id is not None
+            if en == "ce":
+                return ce_path(c)
+            if len(T) == 1:
+                if b0["k"] == "ps":
+                    return ce_path(b0["c"])
+                if b0["k"] == "env":
+                    if in_comp:
+                        return ce_path(cont_of(T[0]))
+                    calls = [{"what": "env_order", "T": T}]
+                    if des:
+                        calls.append({"what": "measure", "M": [T[0], partner(T[0])], "survivors": [partner(T[0])]})
+                    return calls
+                # own state
+                if en == "state":
+                    return [{"what": "measure", "M": T, "survivors": []}] if des and not isinstance(t0, CustomState) else [{"what": "none"}]
+                # via the envelope: the partner is measured as well
+                p = partner(T[0])
+                pl = p is not None and not getattr(w.subs[p], "measured", False)
+                if des:
+                    return [{"what": "measure", "M": T + ([p] if pl else []), "survivors": []}]
+                return [{"what": "measure", "M": [p], "survivors": [p]}] if pl else [{"what": "none"}]
+            return None
+        if kind == "struct":
+            what = st["what"]
+            if what == "env_combine":
+                e = w.envs[st["env"]]
+                return [{"what": "env_combine", "T": [w.sid(e.fock), w.sid(e.polarization)]}]
+            if what == "env_reorder":
+                return [{"what": "env_order", "T": T}]
+            if what == "ce_combine":
+                return [{"what": "ce_combine", "c": c, "T": T}]
+            if what == "ce_reorder":
+                return [{"what": "ce_reorder", "c": c, "T": T}]
+            if what in ("expand", "contract", "set_contraction"):
+                return [{"what": "none"}]
+            return None
+        return None
+
     # ---- the steps ----------------------------------------------------------------------
     def entry_obj(self, step, targets):
         en = step.get("entry", "state")
@@ -235,7 +428,17 @@ class Runner:
         w = self.w
         before = snapshot_blocks(w)
         self.stats[kind] = self.stats.get(kind, 0) + 1
+        lay_before = self.layout_now()
+        self._subs_info = self.subs_info()
+        try:
+            calls = self.route_calls_for(st, lay_before)
+        except Exception:
+            calls = None
+        n0 = len(self.findings)
+        self._rejected = False
         getattr(self, "do_" + kind)(i, st, before)
+        if len(self.findings) == n0 and not self._rejected:
+            self.route_check(i, st, lay_before, calls)
 
     # single- and multi-subsystem operations ------------------------------------------------
     def do_op(self, i, st, before):
@@ -369,6 +572,7 @@ class Runner:
     # rejected calls --------------------------------------------------------------------------
     def after_reject(self, i, st, before, prop):
         """after a rejected call the physical state and the object graph must be as before"""
+        self._rejected = True
         self.compare_states(prop, i, what="joint state after a rejected call")
         for m in check_valid_states(self.w, getattr(self, "vtol", 1e-7)):
             self.findings.append(Finding(prop, "after a rejected call: " + m, i))
@@ -660,6 +864,12 @@ class Runner:
             if isinstance(s, CustomState) or not des:
                 if getattr(s, "measured", False):
                     self.findings.append(Finding("C05", f"subsystem {sid} was destroyed by a {'custom-state' if isinstance(s, CustomState) else 'non-destructive'} measurement", i))
+                else:
+                    # it must be left in the basis state of its outcome, as a usable label
+                    lab = s.state.name if isinstance(s.state, PolarizationLabel) else s.state
+                    want = ("H" if o == 0 else "V") if isinstance(s, Polarization) else o
+                    if s.index is not None or s.expansion_level != EL.Label or isinstance(lab, (np.ndarray, jnp.ndarray)) or lab != want:
+                        self.findings.append(Finding("C05", f"non-destructively measured subsystem {sid} (outcome {o}) is not left in its outcome state: index={s.index}, level={s.expansion_level}, state={lab if not hasattr(lab, 'shape') else 'array'}", i))
             else:
                 if not s.measured or s.state is not None or s.index is not None:
                     self.findings.append(Finding("C05", f"destructively measured subsystem {sid} is not retired (measured={s.measured}, state={'set' if s.state is not None else None}, index={s.index})", i))
